@@ -19,7 +19,7 @@ Proof. exact built_contents_prop. Qed.
 (** The net value balance over all pools is the fee the rule prescribes; the shape the rule was
     asked about is the shape of what was built (no uncounted and no phantom action); the balance
     is exactly inputs minus outputs of the request; fee_paid reports it on transaction routes. *)
-Theorem C14_built_fee : forall r b, build r = Ok b ->
+Theorem C14_built_fee : forall r b, r_coinbase r = false -> build r = Ok b ->
   fee_paid b = rule_fee (r_rule r) (req_shape r) /\
   tx_shape b = req_shape r /\
   fee_paid b = requested_balance (r_ops r) /\
@@ -29,7 +29,7 @@ Proof. exact built_fee. Qed.
 (** An otherwise acceptable request whose inputs differ from outputs plus fee is refused, with
     the exact shortfall or excess. *)
 Theorem C14_unbalanced_fails : forall r hd fee bal,
-  deferral_refused r = false ->
+  r_coinbase r = false -> deferral_refused r = false ->
   run_ops r [] (r_ops r) (init_hdr r) 0 = Ok hd ->
   fee_required (r_rule r) (req_shape r) = Some fee ->
   check_version r (r_ops r) (fst hd) = None ->
@@ -73,8 +73,22 @@ Proof. exact check_version_refusable. Qed.
 (** Header of a result: proposed version, requested expiry, lock time 0, branch of the height. *)
 Theorem C14_header : forall r b, build r = Ok b ->
   b_ver b = requested_version r /\ b_expiry b = requested_expiry r /\ b_lock b = 0 /\
-  b_branch b = branch_id (branch_at (r_net r) (r_height r)) /\ b_dec b = true /\ b_sig b = true.
+  b_branch b = branch_id (branch_at (r_net r) (r_height r)) /\ b_dec b = true /\
+  b_sig b = negb (malformed_script_sig r).
 Proof. exact built_header. Qed.
+
+(** KNOWN FINDING, refuted clause: the builder returns Ok for a request with a 3-of-5 multisig input
+    although the scriptSig it produced is malformed (external zcash_script 0.4.3 writes the
+    OP_PUSHDATA1 length of the 173-byte redeem script as two bytes). *)
+Theorem C14_script_sig_wellformed_refuted : exists r b,
+  build r = Ok b /\ wf_req r = true /\ b_sig b = false.
+Proof. exact script_sig_refuted. Qed.
+
+(** A coinbase build has no transparent inputs, reports no fee, and expires at its own height. *)
+Theorem C14_coinbase : forall r b, r_coinbase r = true -> build r = Ok b ->
+  b_tin b = [] /\ b_fee_paid b = None /\ b_expiry b = r_height r /\
+  ss_vals (r_ops r) = [] /\ os_vals (r_ops r) = [] /\ is_vals (r_ops r) = [].
+Proof. exact built_coinbase. Qed.
 
 (** ZIP 317 instance of the rule: the conventional-fee formula, its floor, monotonicity. *)
 Theorem C14_fee_formula : forall s,
@@ -100,7 +114,8 @@ Proof. exact build_panic. Qed.
 
 (** Bridge: agreement of the model with the implementation on a case implies that the property
     checker accepts the implementation's outcome. *)
-Theorem C14_bridge : forall c, wf_case c = true -> run_case c = true -> prop_case c = true.
+Theorem C14_bridge : forall c,
+  wf_case c = true -> known_class c = 0%N -> run_case c = true -> prop_case c = true.
 Proof. exact bridge. Qed.
 
 (** Signing step (symbolic model of authorize_transparent / apply_signatures; [sh_eqb] decides
@@ -141,13 +156,14 @@ Proof. exact sign_p2sh_iff. Qed.
     index, the spent coin's value and script code, its scriptPubKey from v5 on, SIGHASH_ALL, the
     coin's key - for multisig m keys of the redeem script in script order. *)
 Theorem C14_signed_selectors : forall keys v ops,
-  forallb (p2sh_signable keys) (tsh_mn ops) = true ->
+  forallb (signable_kind keys) (tkinds ops) = true ->
   sels_okb_from (is_v5 v) 0 (coins_of ops) (model_sels keys v ops) = true.
 Proof. exact model_sels_ok. Qed.
 
 (** C07 x C14: the change strategy's fee is the builder's fee. For a proposal
     [C07.compute_balance x c = Ok b] and the builder request carrying the same inputs, payments and
-    the proposed change ([req_of]; standard ZIP 317 rule, no ephemeral output, P2PKH inputs,
+    the proposed change ([req_of]; standard ZIP 317 rule, P2PKH inputs incl. a ZIP 320 ephemeral
+    input, an ephemeral output as a further P2PKH output,
     P2PKH/P2SH outputs, Orchard protocol version matching the height): the builder prices exactly
     the shape C07 priced, change and padding included, and sees exactly C07's fee as its balance.
     Hence the exact-balance check succeeds when C07's fee is the exact fee of the final shape, and
@@ -171,7 +187,7 @@ Proof. exact c07_c14_agree. Qed.
 (** The same without any assumption on the builder's checked arithmetic: with non-negative
     amounts every partial sum of the builder is bounded by the proposal's input total. *)
 Theorem C14_c07_build : forall n x c b rt hd,
-  M7.compute_balance x c = Ok b -> compatible n x c -> rt <> Deferred -> nonneg_tx x ->
+  M7.compute_balance x c = Ok b -> compatible n x c -> rt <> Deferred -> nonneg_tx x c ->
   let r := req_of n x c b rt in
   let shape_fee := S7.shape_fee x c (M7.change b) (M7.dummies b) 0 in
   run_ops r [] (r_ops r) (init_hdr r) 0 = Ok hd ->
@@ -186,30 +202,30 @@ Proof. exact c07_c14_build. Qed.
 (** Non-vacuity. *)
 Definition ex_req : req :=
   mkReq Test 3000000 true true false (mkPad false None) (mkPad false None) []
-        [TIn 60000; SOut 20000; TOut 25000 false] RZip317 Mock.
+        [TIn 60000; SOut 20000; TOut 25000 false] RZip317 Mock false.
 Example ex_builds : exists b, build ex_req = Ok b /\ fee_paid b = 15000 /\ b_nout (b_sap b) = 2.
 Proof. eexists. split; [vm_compute; reflexivity|split; vm_compute; reflexivity]. Qed.
 Example ex_short : build (mkReq Test 3000000 true true false (mkPad false None) (mkPad false None) []
-        [TIn 59999; SOut 20000; TOut 25000 false] RZip317 Mock) = Err (EInsufficient 1).
+        [TIn 59999; SOut 20000; TOut 25000 false] RZip317 Mock false) = Err (EInsufficient 1).
 Proof. vm_compute. reflexivity. Qed.
 Example ex_over : build (mkReq Test 3000000 true true false (mkPad false None) (mkPad false None) []
-        [TIn 60001; SOut 20000; TOut 25000 false] RZip317 Mock) = Err (EChange 1).
+        [TIn 60001; SOut 20000; TOut 25000 false] RZip317 Mock false) = Err (EChange 1).
 Proof. vm_compute. reflexivity. Qed.
 (** The request on which the unrepaired builder paid for two Ironwood actions that the PCZT did
     not contain is now refused when the version is proposed. *)
 Example ex_required_bundle : build (mkReq Main 3428143 false false true (mkPad false None) (mkPad true None) []
-        [Propose V5; TIn 1998] (RLin [0; 0; 0; 0; 0; 0; 999]) Pczt) = Err (EAdd 0 (ETarget V5 None)).
+        [Propose V5; TIn 1998] (RLin [0; 0; 0; 0; 0; 0; 999]) Pczt false) = Err (EAdd 0 (ETarget V5 None)).
 Proof. vm_compute. reflexivity. Qed.
 (** a Sapling balance outside the monetary range is refused (it used to hit an [expect]) *)
 Example ex_sapling_overflow : build (mkReq Main 3000000 true false false (mkPad false None) (mkPad false None) []
-        [SSpend 2100000000000001] RZip317 Mock) = Err (EBalance true).
+        [SSpend 2100000000000001] RZip317 Mock false) = Err (EBalance true).
 Proof. vm_compute. reflexivity. Qed.
 
 Example ex_deferred : exists b, build (mkReq Main 3428150 false false false (mkPad false None) (mkPad false (Some 1)) []
-        [OSpend 50000; IOut 35000] RZip317 Deferred) = Ok b /\ b_nout (b_orc b) = 2 /\ b_nout (b_iw b) = 1 /\ fee_paid b = 15000.
+        [OSpend 50000; IOut 35000] RZip317 Deferred false) = Ok b /\ b_nout (b_orc b) = 2 /\ b_nout (b_iw b) = 1 /\ fee_paid b = 15000.
 Proof. eexists. split; [vm_compute; reflexivity|repeat split; vm_compute; reflexivity]. Qed.
 Example ex_p2sh_missing_key : build (mkReq Main 2726500 false false false (mkPad false None) (mkPad false None) [5]
-        [TInSh 40000 2 3; TOut 38069 false] (RLin [1000; 3; 1; 0; 0; 0; 0]) Build) = Err ETransparentBuild.
+        [TInSh 40000 2 3; TOut 38069 false] (RLin [1000; 3; 1; 0; 0; 0; 0]) Build false) = Err ETransparentBuild.
 Proof. vm_compute. reflexivity. Qed.
 
 (** a proposal and the request built from it: the builder accepts it and pays C07's fee ... *)
@@ -227,3 +243,20 @@ Proof. do 2 eexists. split; [vm_compute; reflexivity|]. repeat split; vm_compute
 Example ex_agree_dust_folded : exists b, M7.compute_balance (ex_x 60100) (ex_c M7.AddDustToFee) = Ok b /\
   M7.fee b = 15100 /\ build (req_of Main (ex_x 60100) (ex_c M7.AddDustToFee) b Build) = Err (EChange 100).
 Proof. eexists. split; [vm_compute; reflexivity|]. split; vm_compute; reflexivity. Qed.
+(** ... a ZIP 320 first step (ephemeral output) and second step (ephemeral input) agree as well *)
+Definition ex_c_eph (e : M7.eph) : M7.config := {| M7.rule := M7.standard_rule; M7.strat := M7.Single;
+  M7.dust_act := M7.Reject; M7.dust_thr := None; M7.fallback := M7.Sapling; M7.tchange_allowed := false;
+  M7.memo := false; M7.ephemeral := Some e; M7.network := M7.MainNet; M7.target_height := 3400000;
+  M7.anchor_height := 3399990; M7.interval := 10 |}.
+Definition ex_x_eph_out : M7.txin := {| M7.t_in := []; M7.t_out := [];
+  M7.s_type := M7.STx false; M7.s_in := [100000]; M7.s_out := [];
+  M7.o_ver := M7.OrchardV2; M7.o_in := []; M7.o_out := []; M7.i_ver := M7.IronwoodV3; M7.i_in := []; M7.i_out := [] |}.
+Definition ex_x_eph_in : M7.txin := {| M7.t_in := []; M7.t_out := [(20000, 34)];
+  M7.s_type := M7.STx false; M7.s_in := []; M7.s_out := [];
+  M7.o_ver := M7.OrchardV2; M7.o_in := []; M7.o_out := []; M7.i_ver := M7.IronwoodV3; M7.i_in := []; M7.i_out := [] |}.
+Example ex_agree_eph_out : exists b t, M7.compute_balance ex_x_eph_out (ex_c_eph (M7.EphOut 30000)) = Ok b /\
+  M7.fee b = 15000 /\ build (req_of Main ex_x_eph_out (ex_c_eph (M7.EphOut 30000)) b Pczt) = Ok t /\ fee_paid t = 15000.
+Proof. do 2 eexists. split; [vm_compute; reflexivity|]. repeat split; vm_compute; reflexivity. Qed.
+Example ex_agree_eph_in : exists b t, M7.compute_balance ex_x_eph_in (ex_c_eph (M7.EphIn 30000)) = Ok b /\
+  M7.fee b = 10000 /\ build (req_of Main ex_x_eph_in (ex_c_eph (M7.EphIn 30000)) b Build) = Ok t /\ fee_paid t = 10000.
+Proof. do 2 eexists. split; [vm_compute; reflexivity|]. repeat split; vm_compute; reflexivity. Qed.
